@@ -11,6 +11,7 @@ RULE = ('histories on the current-thread runtime (every file operation is a susp
         'validate_blob of every blob, removal of all index files, restart, reads. Oracle: the Coq specification replayed '
         'twice (cancelled operation removed / executed): every read must agree with one of the two, monotonically, the '
         'answer after the first restart is final, other keys unchanged, later operations succeed, every blob parses; '
+        'closed-delete stream: a delete of a key held by 2-3 closed indexed blobs only, dropped while one marker append is delayed; '
         'distinct by (operation kind, k, delayed file op, outcome classes)')
 ASSUMPTIONS = ['tokio runs a started spawn_blocking closure to completion even if its JoinHandle is dropped (sampled by the runs)',
                'suspension points are reached through real polling; their exact number per operation is not assumed']
@@ -51,9 +52,57 @@ def gen_script(rng):
     return '\n'.join(L) + '\n'
 
 
+def gen_closed_delete_script(rng):
+    """A delete of a key that lives in two or three CLOSED, indexed blobs (and not in the active one), dropped after k
+    polls while the marker append of one of them is delayed: some closed blobs have their marker, others do not, and
+    no deferred index dump was scheduled."""
+    rt = rng.choice(['ct', 'ct', 'mt'])
+    L = ['cfg K=4 dup=1 group=%d bloom=none init=eager runtime=%s' % (rng.choice([2, 8]), rt), 'open']
+    key, other = '00000001', '00000002'
+    seed = 0
+    nb = rng.choice([2, 2, 3])
+    for b in range(nb):
+        seed += 1
+        L.append('W %s %d - 5 %d' % (key, 5 + b, seed))
+        if rng.random() < 0.5:
+            seed += 1
+            L.append('W %s 5 - 5 %d' % (other, seed))
+        L.append('close_active')
+    restore = rng.random() < 0.3
+    if restore:
+        # no active blob, the last closed blob has its index on disk: the restore is dropped while it may be reading it
+        L += ['R %s' % key, 'R %s' % other]
+        L.append('fail append .blob 0 delay:30')
+        L.append('cancel %d restore_active' % rng.choice([1, 1, 2, 2, 3]))
+        L += ['clearfail', 'quiesce', 'R %s' % key, 'R %s' % other, 'counts']
+        seed += 1
+        L.append('W %s 9 - 5 %d' % (other, seed))
+        L += ['R %s' % key, 'R %s' % other, 'close', 'open', 'R %s' % key, 'R %s' % other, 'counts', 'close', 'ls']
+        L += ['tool validate_blob %d' % i for i in range(5)] + ['rmindex %d' % i for i in range(5)] + ['open', 'R %s' % key, 'R %s' % other]
+        return '\n'.join(L) + '\n'
+    if rng.random() < 0.6:
+        seed += 1
+        L += ['create_active', 'W %s 5 - 5 %d' % (other, seed)]
+    if rng.random() < 0.3:
+        # bring the index of the last closed blob into memory first (a completed delete of the other key)
+        L.append('D %s 40 - 1' % other)
+    qs = ['R %s' % key, 'R %s' % other]
+    L += qs
+    L.append('fail append .blob %d delay:%d' % (rng.choice([0, 0, 1]), rng.choice([30, 60])))
+    L.append('cancel %d D %s 50 - 1' % (rng.choice([1, 2, 3, 4, 5, 6, 8]), key))
+    L.append('clearfail')
+    L.append('quiesce')
+    L += qs + ['counts']
+    L += ['close', 'open'] + qs + ['counts', 'close', 'ls']
+    L += ['tool validate_blob %d' % i for i in range(5)]
+    L += ['rmindex %d' % i for i in range(5)]
+    L += ['open'] + qs
+    return '\n'.join(L) + '\n'
+
+
 def gen(tier, rng):
     n = 220 if tier == 'quick' else 5000
-    return [('cancel%05d' % i, gen_script(rng)) for i in range(n)]
+    return [('cancel%05d' % i, gen_script(rng)) for i in range(n)] + [('cdel%05d' % i, gen_closed_delete_script(rng)) for i in range(n // 4)]
 
 
 def replay(lines, io, mode):
@@ -93,6 +142,13 @@ def oracle(lines, io, spec=None):
     s_none = replay(lines, io, 'none')
     s_all = replay(lines, io, 'all') if dropped else s_none
     f2 = any(o.endswith('Err Index') for o in io)
+    # F18 is about bytes that reached the ACTIVE blob (its index is dumped from memory at close with the current blob
+    # size): a cancelled write, or a cancelled delete whose marker goes to the active blob
+    ct = lines[ci].split()
+    def active_may_hold(k):
+        last = max([i for i in range(ci) if lines[i].split()[0] in ('close_active', 'bg_close', 'force_update', 'open')] + [0])
+        return any(lines[i].split()[0] in ('W', 'D') and lines[i].split()[1] == k for i in range(last, ci))
+    f18_applies = kind == 'W' or (kind == 'D' and (ct[-1] == '0' or active_may_hold(ct[3])))
     opens = [i for i, l in enumerate(lines) if l == 'open']
     first_restart = opens[1] if len(opens) > 1 else None
     second_restart = opens[2] if len(opens) > 2 else None
@@ -121,7 +177,7 @@ def oracle(lines, io, spec=None):
                 fails.append(base + 'line %d `%s`: the cancelled operation had taken effect and is undone later' % (i, l))
                 break
             if phase == 2 and after_first.get(key) == 'none' and which == 'all':
-                fails.append((base or '[F18] ') + 'line %d `%s`: the cancelled `%s` was absent after the first restart and takes effect only after the index files were removed: `%s`' % (i, l, lines[ci], got))
+                fails.append((base or ('[F18] ' if f18_applies else '')) + 'line %d `%s`: the cancelled `%s` was absent after the first restart and takes effect only after the index files were removed: `%s`' % (i, l, lines[ci], got))
                 break
             state[key] = which
             if phase == 1:
